@@ -80,7 +80,7 @@ Proof. vm_compute. split; reflexivity. Qed.
 From AV.Model Require Import Interp.
 From AV.Spec Require Import WorldSpec.
 From AV.Proofs Require Import WorldProofs.
-(** WHOLE HISTORIES: drain AND splice are part of the history fragment of AV.Props.C01 - for EVERY range in every RangeBounds form (invalid ranges panic with the right kind before the vector changes: [C02_into_range_panics]), EVERY sequence of next / next_back / nth / nth_back calls of any length (also after exhaustion; items passed over by nth, skip or step_by are destroyed like dropped ones and never reported: [KSkip]) whose items are dropped or downcast, erased and typed variant, iterator dropped or leaked: the list specifications [WorldSpec.sp_drain] / [WorldSpec.sp_splice] (yielded values front-ascending / back-descending, exact size hints, Vec::drain's / Vec::splice's result, the un-yielded values destroyed in order, then the replacement values pulled and moved in) are what the byte-level machine does, inside any history of any number of vectors ([C01_history_refines] covers ODrain and OSplice; [C02_walk] is the per-pattern induction).  Splice fragment ([C02_splice_in_histories]): ANY number of replacement values of the vector's element type, handed over by value or boxed, honest size hint; a result that does not fit a fixed capacity (or whose length is not representable) panics, destroys every replacement value once and leaves the prefix; a leaked Splice leaks the replacement values; an invalid range destroys them.  Still PARTIAL (one-step theorems above + correspondence): replacement iterators that lie about their length, yield lazily cloned or wrong-typed items, and item sinks that move yielded values into other vectors.  Drains whose items are pushed / inserted into other vectors or forgotten ([WorldSpec.sp_drain_mv]) are steps of the fragment too: [C02_moving_walk], [C02_moving_drain_in_histories]. *)
+(** WHOLE HISTORIES: drain AND splice are part of the history fragment of AV.Props.C01 - for EVERY range in every RangeBounds form (invalid ranges panic with the right kind before the vector changes: [C02_into_range_panics]), EVERY sequence of next / next_back / nth / nth_back calls of any length (also after exhaustion; items passed over by nth, skip or step_by are destroyed like dropped ones and never reported: [KSkip]) whose items are dropped or downcast, erased and typed variant, iterator dropped or leaked: the list specifications [WorldSpec.sp_drain] / [WorldSpec.sp_splice] (yielded values front-ascending / back-descending, exact size hints, Vec::drain's / Vec::splice's result, the un-yielded values destroyed in order, then the replacement values pulled and moved in) are what the byte-level machine does, inside any history of any number of vectors ([C01_history_refines] covers ODrain and OSplice; [C02_walk] is the per-pattern induction).  Splice fragment ([C02_splice_in_histories]): ANY number of replacement values of the vector's element type, handed over by value or boxed, honest size hint; a result that does not fit a fixed capacity (or whose length is not representable) panics, destroys every replacement value once and leaves the prefix; a leaked Splice leaks the replacement values; an invalid range destroys them.  Still PARTIAL (one-step theorems above + correspondence): replacement iterators that lie about their length, yield lazily cloned or wrong-typed items, and item sinks that move yielded values into other vectors.  Drains whose items are pushed / inserted into other vectors or forgotten ([WorldSpec.sp_drain_mv]) are steps of the fragment too: [C02_moving_walk], [C02_moving_drain_in_histories].  Splices with such patterns ([WorldSpec.sp_splice_mv]): [C02_moving_splice_in_histories]. *)
 Theorem C02_into_range_panics :
   forall (len : N) (sb eb : bound) (s : st),
          range_of_bounds usize_max len (to_sb sb) (to_sb eb) = None ->
@@ -167,6 +167,58 @@ Theorem C02_moving_drain_in_histories :
          adm_pat c w vid pat -> res_matches c w (exec c (ODrain a vid sb eb pat f) w) r.
 Proof. exact exec_drain_mv. Qed.
 
+(** dropping a Splice with the cursor anywhere, in any world the (moving) walk can reach: refused (length not representable / beyond a fixed capacity: the replacement values destroyed once each) or the gap filled - exact events, contents, capacity *)
+Theorem C02_splice_drop_at_any_cursor :
+  forall (c : cfg) (w0 : world) (vid : nat) (av : avec) (vv : vec) (s e : nat) 
+           (a : api) (ts : list N) (k : bool) (claimed : N) (i' j' : nat) (ww : world) 
+           (st' : astate) (evs : list event),
+         cfg_wf c ->
+         VI c vv av ->
+         (s <= e)%nat ->
+         (e <= length (a_xs av))%nat ->
+         WalkM c w0 vid av vv s ww st' evs ->
+         (s <= i')%nat ->
+         (i' <= j')%nat ->
+         (j' <= e)%nat ->
+         Forall (tok_ok (szn c)) ts ->
+         (let nl := N.of_nat s + claimed + (N.of_nat (length (a_xs av)) - N.of_nat e) in
+          nl <= vcap vv \/ fixed_backend (vbk vv) \/ usize_max < nl \/ grow_ok c vv nl) ->
+         let xs := a_xs av in
+         let d :=
+           {|
+             dcur := {| ci := N.of_nat s; ce := N.of_nat e |};
+             dstart := N.of_nat s;
+             dend := N.of_nat e;
+             dorig := N.of_nat (length xs)
+           |} in
+         let items := map (fun t : N => honest_item c t k) ts in
+         let finish :=
+           on_vec vid
+             (splice_drop c (known_of a) (with_cur {| ci := N.of_nat i'; ce := N.of_nat j' |} d) claimed items)
+           in
+         match sp_splice_fin c av s e i' j' ts claimed (N.of_nat (length ts)) with
+         | inl p =>
+             exists w' : world,
+               finish ww = Panic p w' /\ step_ok c w0 w' st' (evs ++ (if c_dg c then map EDrop ts else [])) 0
+         | inr (fevs, ys) =>
+             exists w' : world,
+               finish ww = Ok tt w' /\ step_ok c w0 w' (set_a vid (Some (with_xs av ys)) st') (evs ++ fevs) 0
+         end.
+Proof. exact splice_finish. Qed.
+
+(** splice whose yielded items are also moved into other vectors or forgotten, as a step of any history; a refused move unwinds through the Splice, whose drop still fills the gap *)
+Theorem C02_moving_splice_in_histories :
+  forall (c : cfg) (w : world) (st : astate) (a : api) (vid : nat) (sb eb : bound)
+           (pat : list (bool * sink)) (f : fin) (rk : rkind) (n : N) (wrong_at : option N) 
+           (claimed : N) (r : sres),
+         cfg_wf c ->
+         WRep c w st ->
+         ufuse (wuw w) = None ->
+         sp_splice_mv c st (unext (wuw w)) vid sb eb pat f rk n wrong_at claimed = Some r ->
+         adm_splice c w vid sb eb claimed ->
+         adm_pat c w vid pat -> res_matches c w (exec c (OSplice a vid sb eb pat f rk n wrong_at claimed) w) r.
+Proof. exact exec_splice_mv. Qed.
+
 (* ---- end histories ---- *)
 Print Assumptions C02_into_range.
 Print Assumptions C02_drain_new.
@@ -179,3 +231,5 @@ Print Assumptions C02_drain_in_histories.
 Print Assumptions C02_splice_in_histories.
 Print Assumptions C02_moving_walk.
 Print Assumptions C02_moving_drain_in_histories.
+Print Assumptions C02_splice_drop_at_any_cursor.
+Print Assumptions C02_moving_splice_in_histories.
